@@ -313,7 +313,21 @@ def _randomise(net, wscale, peaked, gen):
                 p.copy_(torch.randn(p.shape, generator=gen) * 0.3)
 
 
-def _check_call(rec, case, agent, snap, batch, g, online_calls, target_calls, site):
+def _ref_logp(agent, td):
+    """log of the online network's return distributions at the batch's observations, evaluated by the driver BEFORE learn()
+    (weights and noise are only changed after the loss has been computed): what "the online distribution of the action
+    taken" is, however the code under observation obtains its own copy."""
+    import torch
+
+    try:
+        with torch.no_grad():
+            o = agent.preprocess_observation(td["obs"])
+            return type(agent.actor).forward(agent.actor, o, q=False, log=True).detach().to("cpu").double().numpy().copy()
+    except Exception:
+        return None
+
+
+def _check_call(rec, case, agent, snap, batch, g, online_calls, target_calls, site, ref_logp=None):
     """All per-row checks for one _dqn_loss call. Returns the float64 per-row loss read at return (or None)."""
     B, atoms = case["B"], case["atoms"]
     vmin, vmax = float(agent.v_min), float(agent.v_max)
@@ -349,6 +363,18 @@ def _check_call(rec, case, agent, snap, batch, g, online_calls, target_calls, si
         # action is still defined by them (taken from the peer evaluation inside the target tap)
         rec.hit("online_q_taken_from_peer_evaluation")
         oq, od = [tcs[0][4]], [tcs[0][5]]
+    if ref_logp is not None and ref_logp.shape[0] == B:
+        for i in range(B):
+            rec.hit("log_p_reference_rows")
+            want = ref_logp[i, a[i]]
+            if want.shape != logp_all[i].shape or not np.allclose(logp_all[i], want, rtol=1e-6, atol=1e-7):
+                rec.violate("source", "log_p_is_not_the_log_of_the_online_distribution_of_the_action_taken", site, row=i, action=int(a[i]),
+                            max_abs_diff=float(np.abs(logp_all[i] - want).max()) if want.shape == logp_all[i].shape else None,
+                            min_online_probability=float(np.exp(want).min()))
+                break
+    if len(tq) == 1 and len(oq) == 1 and not ol and ref_logp is not None:
+        rec.hit("online_log_distribution_taken_from_reference")
+        ol = [ref_logp]
     if len(tq) == 1 and len(oq) == 1 and len(ol) == 1:
         tq, oq, ol = tq[0], oq[0], ol[0]
         if tcs[0][4] is not None and tcs[0][4].shape == oq.shape and not np.allclose(tcs[0][4], oq, rtol=0, atol=1e-6 * max(1.0, abs(vmin), abs(vmax))):
@@ -377,7 +403,7 @@ def _check_call(rec, case, agent, snap, batch, g, online_calls, target_calls, si
                     greedy=best,
                     online_q=oq[i],
                 )
-            if not np.array_equal(logp_all[i], ol[i, a[i]]):
+            if not np.allclose(logp_all[i], ol[i, a[i]], rtol=1e-6, atol=1e-7):
                 rec.violate("source", "log_p_is_not_online_log_distribution_of_action_taken", site, row=i, action=int(a[i]))
             if abs(np.exp(ol[i, a[i]]).sum() - 1.0) > 1e-4:
                 rec.violate("source", "online_log_output_is_not_a_log_distribution", site, row=i, total=float(np.exp(ol[i, a[i]]).sum()))
@@ -439,6 +465,7 @@ def _learn_once(rec, case, agent, rng, gen, step):
     prior_eps = float(agent.prior_eps)
     g1 = float(agent.gamma)
     gn = float(agent.gamma) ** int(agent.n_step)
+    ref_logps = {"1-step": _ref_logp(agent, exp), "n-step": _ref_logp(agent, nexp) if nexp is not None else None}
     _STATE["calls"] = []
     _STATE["events"] = []
     with _NetTap(agent.actor, tag="on") as on, _NetTap(agent.actor_target, peer=agent.actor, tag="tg") as tg:
@@ -472,7 +499,7 @@ def _learn_once(rec, case, agent, rng, gen, step):
     losses = []
     for k, (name, b, g) in enumerate(plan):
         grp = groups[k] if k < len(groups) else {"on": [], "tg": []}
-        ret = _check_call(rec, case, agent, calls[k], b, g, grp["on"], grp["tg"], f"_dqn_loss[{name}]")
+        ret = _check_call(rec, case, agent, calls[k], b, g, grp["on"], grp["tg"], f"_dqn_loss[{name}]", ref_logp=ref_logps.get(name))
         losses.append(ret)
     if any(x is None for x in losses):
         return
